@@ -308,8 +308,19 @@ CRASH_TARGETS = ("step", "h5.append_data", "h5.append_vectors", "h5.append_nonad
                  "torch.save", "os.replace")
 
 
+def _die_with_parent():
+    """Linux: deliver SIGKILL to this process when its parent dies (a watchdog that kills the worker must not leave
+    children running)."""
+    try:
+        import ctypes
+        ctypes.CDLL("libc.so.6", use_errno=True).prctl(1, signal.SIGKILL)   # PR_SET_PDEATHSIG
+    except Exception:
+        pass
+
+
 def child_main(job):
     """Runs in a child process (forked or exec'ed).  Never returns: ends in os._exit."""
+    _die_with_parent()
     out_fd = os.open(job["stdout"], os.O_WRONLY | os.O_CREAT | os.O_APPEND, 0o644)
     os.dup2(out_fd, 1)
     sys.stdout = os.fdopen(1, "w", buffering=1, closefd=False)
